@@ -36,10 +36,60 @@ EVIDENCE = {
 }
 
 
+def gen_public(seed, rng, knobs):
+    """Bootloader.flash(file, targets): a .bin for one target, or a zip (manifest v1/v2) with firmware for the STM32 and
+    the nRF51, flashed one after the other over the same link."""
+    geos = {}
+    for tid in (0xFF, 0xFE):
+        ps = rng.choice([16, 25, 64, 128, 1000, 1024])
+        bp = rng.choice([1, 2, 3, 10])
+        if tid == 0xFE:
+            start = rng.choice([88, 108])         # the library derives the soft-device generation from it
+            fp = start + rng.choice([1, 2, 8, 24])
+        else:
+            fp = rng.choice([4, 8, 20, 64])
+            start = rng.choice([0, 1, fp // 2, fp - 1])
+        geos[str(tid)] = {'tid': tid, 'page_size': ps, 'buffer_pages': bp, 'flash_pages': fp, 'start_page': start,
+                          'proto': 0x10}
+    kind = rng.choice(['bin', 'bin', 'zip1', 'zip2', 'zip2', 'zip2'])
+    tids = [rng.choice([0xFF, 0xFE])] if kind != 'zip2' else rng.choice([[0xFF, 0xFE], [0xFE, 0xFF]])
+    arts = []
+    for i, tid in enumerate(tids):
+        g = geos[str(tid)]
+        room = (g['flash_pages'] - g['start_page']) * g['page_size']
+        k = rng.choice(['fit', 'fit', 'exact-page', 'full', 'one'] + (['oversize'] if i == 0 else []))
+        if k == 'one':
+            ln = 1
+        elif k == 'exact-page':
+            ln = g['page_size'] * rng.randint(1, max(1, min(g['flash_pages'] - g['start_page'], 3 * g['buffer_pages'])))
+        elif k == 'full':
+            ln = room
+        elif k == 'oversize':
+            ln = room + rng.choice([1, g['page_size']])
+        else:
+            ln = rng.randint(1, max(1, min(room, g['page_size'] * g['buffer_pages'] * 3 + 7)))
+        arts.append({'tid': tid, 'len': ln, 'seed': rng.randrange(1 << 30)})
+    mode = rng.choice(['clean', 'clean', 'lossy', 'negative', 'dead'])
+    rates = {}
+    if mode == 'lossy':
+        rates['flash'] = [0.15, 0.15, 0.0]
+    elif mode == 'negative':
+        rates['flash'] = [0.03, 0.03, 0.08]
+    elif mode == 'dead':
+        rates['flash'] = [0.5, 0.5, 0.0]
+    knobs['rates'] = rates
+    return {'seed': seed, 'scenario': 'public-%s-%s' % (kind, mode), 'knobs': knobs, 'ops': [],
+            'public': {'kind': kind, 'geos': geos, 'artifacts': arts, 'manifest_version': rng.choice([1, 2]),
+                       'ask_targets': rng.choice(['all', 'listed'])},
+            'progress_cb': rng.random() < 0.5}
+
+
 def gen(seed):
     rng = random.Random(H(seed, 'plan'))
     knobs = common.sched_knobs(rng, allow_stall=False)
     knobs['lat'] = (0.0005, 0.003)
+    if rng.random() < 0.25:
+        return gen_public(seed, rng, knobs)
     ps = rng.choice([16, 25, 50, 64, 100, 128, 256, 1000, 1024, 2048])
     bp = rng.choice([1, 2, 3, 4, 10, 16])
     fp = rng.choice([4, 8, 20, 64, 128])
@@ -64,7 +114,7 @@ def gen(seed):
         override = rng.randint(0, fp - 1)
         if kind != 'oversize':
             ln = max(1, min(ln, (fp - override) * ps))
-    mode = rng.choice(['clean', 'clean', 'lossy', 'negative', 'dead'])
+    mode = rng.choice(['clean', 'clean', 'lossy', 'negative', 'dead', 'chatter', 'chatter-dead'])
     rates = {}
     if mode == 'lossy':
         rates['flash'] = [0.15, 0.15, 0.0]
@@ -72,6 +122,15 @@ def gen(seed):
         rates['flash'] = [0.05, 0.05, 0.15]
     elif mode == 'dead':
         rates['flash'] = [0.5, 0.5, 0.0]
+    elif mode == 'chatter':
+        # unrelated packets keep arriving while flash-write commands wait for their answer (console text of a firmware on
+        # the same address, late answers to earlier commands, the other target): no negative replies in this mode, a retry
+        # sent before a queued negative reply was read would be indistinguishable from one sent after it
+        rates['flash'] = [0.2, 0.2, 0.0]
+        knobs['chatter'] = {'period': rng.choice([0.1, 0.7, 2.0]), 'kinds': rng.choice([[0], [1], [2], [3], [0, 1, 2, 3]])}
+    elif mode == 'chatter-dead':
+        rates['flash'] = [0.5, 0.5, 0.0]
+        knobs['chatter'] = {'period': rng.choice([0.1, 0.7, 2.0]), 'kinds': rng.choice([[0], [1], [2], [3], [0, 1, 2, 3]])}
     knobs['rates'] = rates
     return {'seed': seed, 'scenario': 'flash-' + mode, 'knobs': knobs, 'ops': [],
             'geo': {'tid': tid, 'page_size': ps, 'buffer_pages': bp, 'flash_pages': fp, 'start_page': start,
@@ -92,10 +151,162 @@ def directed(tier):
                       'knobs': {'line_mean': 0, 'p_stall': 0.0, 'lat': (0.001, 0.001), 'rates': {}},
                       'forced': list(pat), 'image_len': 64 * 5 + 10, 'image_seed': 5, 'override': None,
                       'progress_cb': False})
+    # unanswered / late-answered commands while unrelated packets keep arriving faster than the 2.5 s reply time-out
+    for period in (0.1, 1.0, 2.4, 3.0):
+        for pat in (tuple([1] * 40), tuple([2] * 40), (2, 0, 1, 0, 0, 2, 2, 0, 0, 0, 0, 0)):
+            for kinds in ([0], [1, 2, 3]):
+                n += 1
+                plans.append({'seed': 990000 + n, 'scenario': 'directed-chatter', 'ops': [], 'geo': geo,
+                              'knobs': {'line_mean': 0, 'p_stall': 0.0, 'lat': (0.001, 0.001), 'rates': {},
+                                        'chatter': {'period': period, 'kinds': kinds}},
+                              'forced': list(pat), 'image_len': 64 * 5 + 10, 'image_seed': 5, 'override': None,
+                              'progress_cb': False})
     return plans
 
 
+def execute_public(ctx):
+    import contextlib
+    import io
+    import json
+    import os
+    import shutil
+    import tempfile
+    import zipfile
+    from cflib.bootloader import Bootloader, Target
+    plan, sim = ctx.plan, ctx.sim
+    pub = plan['public']
+    geos = {int(k): v for k, v in pub['geos'].items()}
+    w = World(sim, ctx.faults, net_seed=H(ctx.seed, 'net'), lat=tuple(ctx.knobs.get('lat', (0.0005, 0.003))),
+              needs_resending=False)
+    tgt = SimBootTarget(sim, ctx.faults, geos)
+    w.add_device('boot', tgt)
+    w.install()
+    ctx.notes['nontrivial'] = True
+    images = []
+    for a in pub['artifacts']:
+        r = random.Random(a['seed'])
+        images.append(bytes(r.randrange(256) for _ in range(a['len'])))
+    name = {0xFF: 'stm32', 0xFE: 'nrf51'}
+    tmp = tempfile.mkdtemp(prefix='verif_c12_')
+    res = {}
+    try:
+        if pub['kind'] == 'bin':
+            fn = os.path.join(tmp, 'image.bin')
+            with open(fn, 'wb') as f:
+                f.write(images[0])
+        else:
+            fn = os.path.join(tmp, 'firmware.zip')
+            files = {}
+            with zipfile.ZipFile(fn, 'w') as zf:
+                for a, img in zip(pub['artifacts'], images):
+                    g = geos[a['tid']]
+                    arc = 'cf2-%s.bin' % name[a['tid']]
+                    zf.writestr(arc, img)
+                    md = {'platform': 'cf2', 'target': name[a['tid']], 'type': 'fw', 'release': '2099.1',
+                          'repository': 'x'}
+                    if a['tid'] == 0xFE:
+                        md['requires'] = ['sd-s110' if geos[0xFE]['start_page'] == 88 else 'sd-s130']
+                    elif pub['manifest_version'] == 2:
+                        md['requires'] = []
+                        md['provides'] = []
+                    files[arc] = md
+                zf.writestr('manifest.json', json.dumps({'version': pub['manifest_version'], 'subversion': 1,
+                                                         'release': '2099.1', 'files': files}))
+
+        def scenario():
+            bl = Bootloader('sim://boot')
+            bl._cload.open_bootloader_uri('sim://boot')
+            if bl._cload.link is None or not bl._cload.check_link_and_get_info(0xFF):
+                ctx.violation('0', 'no-info', 'bootloader info not received')
+                return
+            if not bl.start_bootloader(warm_boot=False):
+                ctx.violation('0', 'start_bootloader-failed', 'cold start with an open link returned False')
+                return
+            if plan.get('progress_cb'):
+                bl.progress_cb = lambda msg, pct: res.setdefault('progress', []).append(pct)
+            res['n_before'] = len(tgt.cmds)
+            if pub['kind'] == 'bin' or pub['ask_targets'] == 'listed':
+                targets = [Target('cf2', name[a['tid']], 'fw', [], []) for a in pub['artifacts']]
+            else:
+                targets = []
+            try:
+                with contextlib.redirect_stdout(io.StringIO()):
+                    bl.flash(fn, targets)
+                res['ok'] = True
+            except Exception as e:
+                res['exc'] = e
+            res['n_after'] = len(tgt.cmds)
+            P.sim_sleep(3.0)
+            res['n_late'] = len(tgt.cmds)
+            bl.close()
+
+        verdict = sim.run(scenario)
+    finally:
+        shutil.rmtree(tmp, ignore_errors=True)
+    if verdict[0] in ('deadlock', 'timeout', 'livelock'):
+        from simkit.harness import hang_signature
+        sg, msg = hang_signature(verdict)
+        ctx.violation('4', sg, msg, verdict[1])
+    for tname, exc, tb in sim.thread_deaths:
+        ctx.violation('0', 'thread-died %s @%s' % (exc.split(':')[0], cflib_site(tb)),
+                      'thread %s died: %s' % (tname, exc), tb)
+    if 'n_before' not in res:
+        return
+    cmds = tgt.cmds[res['n_before']:]
+    # the artifacts are flashed in manifest order; the first failing one ends the flashing
+    failed_before = False
+    touched = set(c[1] for c in cmds if c[2] in (0x14, 0x18))
+    for a, img in zip(pub['artifacts'], images):
+        tid = a['tid']
+        g = geos[tid]
+        ps, bp, fp, start = g['page_size'], g['buffer_pages'], g['flash_pages'], g['start_page']
+        cm = [c for c in cmds if c[1] == tid]
+        lo = [c for c in tgt.loads if c[1] == tid]
+        wr = [c for c in tgt.writes if c[1] == tid]
+        if failed_before:
+            if any(c[2] in (0x14, 0x18) for c in cm) or bytes(tgt.t[tid]['flash']) != tgt.t[tid]['pristine']:
+                ctx.violation('4', 'next-image-flashed-after-failure', 'target %#x received flashing commands although the '
+                              'previous image failed' % tid)
+            continue
+        fits = len(img) <= (fp - start) * ps
+        nviol = len(ctx.violations)
+        # the single-image oracle; the outcome of the whole call is attributed to this image if it is the one that fails
+        wouldfail = (not fits) or _write_failed(wr)
+        r = dict(res)
+        if not wouldfail and 'exc' in res and a is not pub['artifacts'][-1]:
+            # the exception may belong to a later image: judge this one by its own commands
+            r.pop('exc')
+            r['n_late'] = r['n_after']
+        oracle_target(ctx, tgt, tid, ps, bp, fp, start, img, fits, cm, lo, wr, r)
+        if wouldfail:
+            failed_before = True
+        del nviol
+    others = touched - set(a['tid'] for a in pub['artifacts'])
+    if others:
+        ctx.violation('1', 'target-without-image-written', 'targets %r received flashing commands but the file has no '
+                      'image for them' % sorted(others))
+    for tid in geos:
+        if tid not in [a['tid'] for a in pub['artifacts']] and bytes(tgt.t[tid]['flash']) != tgt.t[tid]['pristine']:
+            ctx.violation('1', 'flash-of-other-target-modified', 'target %#x has no image in the file' % tid)
+    ctx.probe('public flash() %s' % pub['kind'])
+
+
+def _write_failed(writes):
+    """True if, by the retry rule, some flash-write command of this image must be treated as failed."""
+    attempts = {}
+    for (t, tid, bpage, fpage, n, outcome) in writes:
+        attempts.setdefault((bpage, fpage, n), []).append(outcome)
+    for outs in attempts.values():
+        if 3 in outs:
+            return True
+        if not [o for o in outs if o == 0] and len(outs) >= 6:
+            return True
+    return False
+
+
 def execute(ctx):
+    if ctx.plan.get('public'):
+        return execute_public(ctx)
     from cflib.bootloader import Bootloader, FlashArtifact, Target
     import cflib.crtp
     plan = ctx.plan
@@ -136,6 +347,14 @@ def execute(ctx):
         n_before = len(tgt.cmds)
         res['n_before'] = n_before
         art = FlashArtifact(image, Target('cf2', 'stm32' if tid == 0xFF else 'nrf51', 'fw', [], []), None)
+        ch = ctx.knobs.get('chatter')
+        if ch:
+            def tick():
+                if 'ok' in res or 'exc' in res:
+                    return
+                tgt.chatter(ch['kinds'][tgt.chatter_sent % len(ch['kinds'])], tid)
+                sim.after(ch['period'], tick)
+            sim.after(ch['period'], tick)
         try:
             import io
             import contextlib
@@ -159,11 +378,15 @@ def execute(ctx):
                       'thread %s died: %s' % (name, exc), tb)
     if 'n_before' not in res:
         return
+    oracle_target(ctx, tgt, tid, ps, bp, fp, start, image, fits, tgt.cmds[res['n_before']:], list(tgt.loads),
+                  list(tgt.writes), res)
+
+
+def oracle_target(ctx, tgt, tid, ps, bp, fp, start, image, fits, cmds, loads, writes, res):
+    """Everything the statement says about flashing one image into one target.  cmds/loads/writes: the commands the
+    target received for this image; res: {'exc'|'ok', 'n_after', 'n_late'} of the flashing call."""
     g = tgt.t[tid]
     flash, pristine = g['flash'], g['pristine']
-    cmds = tgt.cmds[res['n_before']:]
-    loads = [c for c in tgt.loads]
-    writes = tgt.writes
     # clause 2: oversize refused before anything is written
     if not fits:
         if 'exc' not in res:
@@ -180,8 +403,9 @@ def execute(ctx):
         if total > 31:
             ctx.violation('3', 'buffer-load-packet-too-long', '%d bytes after the CRTP header' % total)
             break
-    if tgt.out_of_range:
-        ctx.violation('1', 'address-out-of-range %s' % tgt.out_of_range[0][0], '%r' % (tgt.out_of_range[:3],))
+    oor = [o for o in tgt.out_of_range if o[-1] == tid]
+    if oor:
+        ctx.violation('1', 'address-out-of-range %s' % oor[0][0], '%r' % (oor[:3],))
     # rounds: loads between consecutive flash-write commands (first transmission of each write)
     npages = (len(image) + ps - 1) // ps
     rounds = []
@@ -277,3 +501,5 @@ def execute(ctx):
         ctx.violation('1', 'page-outside-image-range-modified', 'image occupies flash pages %d..%d' % (start, end_page - 1))
     if any(len(v) > 1 for v in attempts.values()):
         ctx.probe('flash-write retried')
+    if tgt.chatter_sent:
+        ctx.probe('unrelated packets arrived during flashing')
